@@ -29,7 +29,7 @@ type Out struct {
 	PanicMsg string
 }
 
-var frameRe = regexp.MustCompile(`github\.com/scrapli/scrapligo/([\w/]+)\.([\w().*]+)`)
+var frameRe = regexp.MustCompile(`github\.com/scrapli/scrapligo/([\w/]+)\.((?:\(\*?\w+\)\.)?[\w.]+)`)
 
 // record runs the library's decoder (public API) on raw under recover().
 func record(version string, raw []byte) (o Out) {
@@ -187,6 +187,9 @@ func (b *batch) judgeArbitrary11(raw []byte, name string) (accepted bool) {
 	if o.Failed != nil && !carries {
 		b.bad("c02/rejected-wellformed", "1.1", raw, name, "reference accepts (payload %q) but Failed=%v", clipS(string(ref)), o.Failed)
 		return true
+	}
+	if o.Failed == nil && anyMarkerIn(ref) {
+		b.bad("c02/failed-unset:accepted-frame", "1.1", raw, name, "reference payload %q has an rpc-error marker but Failed is nil", clipS(string(ref)))
 	}
 	if o.Result != want {
 		b.bad("c02/result-mismatch:1.1", "1.1", raw, name, "Result %q, reference payload (trimmed) %q", clipS(o.Result), clipS(want))
